@@ -235,6 +235,24 @@ def run_case(case, ctx):
             _conv(ctx, "user/roundtrip", res, units[i], a, f"{res!r}.convert({units[i]}) (round trip)")
         if not (res == q):
             ctx.viol("user/equal", f"{what} = {res!r} does not compare equal to the original")
+        # ordering across units, for order-preserving rows only (with a negative factor the two operands'
+        # units give opposite answers and the property does not say which one counts)
+        if i != j:
+            f = table[(i, j)][0] if (i, j) in table else table[(j, i)][0]
+            both = (i, j) in table and (j, i) in table
+            if f > 0 and (case["consistent"] or not both):
+                for delta in (-1, 0, 1):
+                    p = T(mknum(["frac", fs(want + delta)]), units[j])
+                    for name, op in OPS.items():
+                        ctx.tick()
+                        try:
+                            got = op(q, p)
+                        except Exception as exc:  # noqa: BLE001
+                            ctx.viol(f"user/cmp/{name}/raises/{type(exc).__name__}", f"{q!r} {name} {p!r} raised "
+                                     f"{type(exc).__name__}: {exc}")
+                            continue
+                        if got is not op(want, want + delta):
+                            ctx.viol(f"user/cmp/{name}", f"{q!r} {name} {p!r} is {got}; {q!r} is {fs(want)} {units[j]}")
     if case["consistent"]:
         a = exact(case["tamt"])
         for i, j, kk in case["triples"]:
